@@ -154,7 +154,7 @@ namespace Pistache::Http::Mime
 
         StreamCursor::Token subToken(cursor);
 
-        if (match_raw("vnd.", 4, cursor))
+        if (match_string("vnd.", cursor))
         {
             sub = Subtype::Vendor;
         }
